@@ -44,6 +44,7 @@ func loadRepo(patterns []string) *Loaded {
 	if nerr > 0 {
 		fatalf("packages do not load")
 	}
+	loadedPkgs = pkgs
 	prog, spkgs := ssautil.AllPackages(pkgs, ssa.GlobalDebug)
 	prog.Build()
 	dirs := map[string]string{}
@@ -96,6 +97,14 @@ func cmdVC(args []string) {
 	fs.Parse(args)
 	l := loadRepo(fs.Args())
 	fmt.Printf("loaded in %.1fs, %d functions, %d contracts\n", l.loadS, len(l.funcs), len(l.cs.Funcs))
+	if lrep := genLemmas(l.prog, l.cs, ""); len(lrep.Obls) > 0 || lrep.Err != "" {
+		if lrep.Err != "" {
+			fmt.Println("LEMMA ERROR", lrep.Err)
+		}
+		for _, r := range dischargeAll(lrep.Obls, verifRoot+"/out/vc", *timeout) {
+			fmt.Printf("   lemma %-10s %-50s %s %dms %v\n", r.Status, r.O.Label, r.Solver, r.Ms, r.AllStat)
+		}
+	}
 	keys := sortedKeys(l.cs.Funcs)
 	for _, k := range keys {
 		if *filter != "" && !strings.Contains(k, *filter) {
